@@ -1,11 +1,56 @@
 """C06: convert(civil, zone) preserves order (E1: real MakeTime twice on one symbolic table, any pair cs1 < cs2)."""
 import sys
 from . import tz_jobs as J
+from . import tz_common as tz
+from engine import symex, smt, build
+from engine.symex import Ptr
+from engine.irparse import I8, I32, I64, PtrTy
+from engine.smt import eq, ne, ite, and_
 replay = J.replay_case
+
+def job_convert():
+    """cctz::convert (real IR, inline in time_zone.h): convert(cs, tz) is lookup(cs).trans for a SKIPPED civil second and lookup(cs).pre
+    otherwise; convert(tp, tz) is lookup(tp).cs.  time_zone::lookup is an arbitrary answer here (its content is C01/C02)."""
+    mod = tz.module()
+    ex = symex.Executor(mod, tlimit_ms=120000)
+    dm = build.demangle(list(mod.decls))
+    kind = pre = trans = post = None
+    def h(ex, st):
+        kind = ex.input("kind", 32, 0, 2); pre = ex.input("pre"); trans = ex.input("trans"); post = ex.input("post")
+        csy = ex.input("cs_year"); f5 = [ex.input("cs_f%d" % i, 8) for i in range(5)]
+        def lookup_cs(ex, st2, a):
+            ret = a[0]
+            ex.store_raw(st2, Ptr(ret.obj, ret.off), 4, kind)
+            for o, v in ((8, pre), (16, trans), (24, post)): ex.store_raw(st2, Ptr(ret.obj, smt.add(ret.off, o)), 8, v)
+            return None
+        def lookup_tp(ex, st2, a):
+            ret = a[0]
+            ex.store_raw(st2, Ptr(ret.obj, ret.off), 8, csy)
+            for i in range(5): ex.store_raw(st2, Ptr(ret.obj, smt.add(ret.off, 8 + i)), 1, f5[i])
+            ex.store_raw(st2, Ptr(ret.obj, smt.add(ret.off, 16)), 4, 0); ex.store_raw(st2, Ptr(ret.obj, smt.add(ret.off, 20)), 1, 0)
+            ex.store_raw(st2, Ptr(ret.obj, smt.add(ret.off, 24)), 8, 0)
+            return None
+        for nm in mod.decls:
+            d = dm[nm]
+            if d.startswith("cctz::time_zone::lookup(cctz::detail::civil_time"): ex.contracts[nm] = lookup_cs
+            if d.startswith("cctz::time_zone::lookup(std::chrono::time_point"): ex.contracts[nm] = lookup_tp
+        cs = ex.new_obj(st, 16, "cs"); ex.store_raw(st, cs, 8, ex.input("q_year")); ex.store_raw(st, Ptr(cs.obj, 8), 8, tz.REST)
+        tzo = ex.new_obj(st, 8, "time_zone"); ex.store_raw(st, tzo, 8, 0)
+        tp = ex.new_obj(st, 8, "tp"); ex.store_raw(st, tp, 8, ex.input("q_t"))
+        out = ex.new_obj(st, 16, "civil_second out")
+        def k2(st, rv):
+            got = [ex.load(st, Ptr(out.obj, 0), I64)] + [ex.load(st, Ptr(out.obj, 8 + i), I8) for i in range(5)]
+            ex.prove(st, and_(eq(got[0], csy), *[eq(g, v) for g, v in zip(got[1:], f5)]), "convert(tp, tz) is lookup(tp).cs, field by field")
+        def k1(st, rv):
+            ex.prove(st, eq(rv, ite(eq(kind, 1), trans, pre)), "convert(cs, tz) is lookup(cs).trans when the civil second is SKIPPED and lookup(cs).pre otherwise")
+            ex.call(st, "w_convert_tp", [tp, tzo, out], k2)
+        ex.call(st, "w_convert_cs", [cs, tzo], k1)
+    return ex.execute(h)
 def run(tier):
     sz = J.sizes(tier, True)
     jobs = [("order:N=%d,T=%d" % s, J.job_order, {"N": s[0], "T": s[1]}) for s in sz]
+    jobs += [("convert:selection", job_convert, {})]
     return J.run_property("C06", tier, jobs, {"order": "order"},
         "SMT over every pair of civil seconds cs1 < cs2 (including the saturated ends) and every well-formed table of the stated sizes.",
-        ["tables N x T in %s" % sz], outside=["convert()'s own three lines (SKIPPED -> trans, otherwise pre) are applied by the harness, not executed from IR"])
+        ["tables N x T in %s" % sz], outside=["inside the order jobs convert()'s selection (SKIPPED -> trans, otherwise pre) is applied by the harness; the real convert() is decided by the job convert:selection"])
 if __name__ == "__main__": sys.exit(run(sys.argv[1] if len(sys.argv) > 1 else "quick"))
